@@ -4,7 +4,7 @@ from . import conn
 from .c02 import incremental_tolerated
 from .c15 import block
 from .conn import leaves, ret_kind
-from .util import payload_of, const_of, is_call, last_seg, look, norm, option_is_some, truth
+from .util import result_test, option_test, propagated_error, payload_of, const_of, is_call, last_seg, look, norm, option_is_some, truth
 
 EXPLANATION = (
     "Static decision of the structural agreement of the two parsers: both reach RequestLine::try_from "
@@ -123,17 +123,15 @@ def rejections(ctx):
             x = look(t[3])
             if x[0] == "field" and x[1][0] == "downcast" and look(x[1][1]) == ("arg", 2):
                 return "length>=max"
-        if t[0] == "discr" and first_crlf(t[1]) and option_is_some(c) is False:
+        if option_test(t, c, first_crlf) == "none":
             return "no-crlf"
         if t[0] == "bin" and t[1] == "Lt" and is_call(look(t[2]), "len") and rl_slice(look(t[2])[2][0]) and is_call(look(t[3]), "request::RequestLine::min_len") and tv:
             return "short-line"
-        if t[0] == "discr" and is_call(t[1], "branch") and c == ("eq", 1):
-            src = look(t[1][2][0])
-            if is_call(src, "request::RequestLine::try_from") and rl_slice(src[2][0]):
-                return "request-line-error"
-            if is_call(src, "common::headers::Headers::try_from"):
-                return "header-error"
-        if t[0] == "discr" and term_find(t[1]) and option_is_some(c) is False:
+        if result_test(t, c, lambda src: is_call(src, "request::RequestLine::try_from") and rl_slice(src[2][0])) == "err":
+            return "request-line-error"
+        if result_test(t, c, lambda src: is_call(src, "common::headers::Headers::try_from")) == "err":
+            return "header-error"
+        if option_test(t, c, term_find) == "none":
             return "no-header-terminator"
         if is_call(t, "eq") and tv:
             a, b = look(t[2][0]), look(t[2][1])
@@ -175,13 +173,20 @@ def rejections(ctx):
         seen[cause] += 1
         good = True
         if cause in ("request-line-error", "header-error"):
-            good = rk[0] == "prop"
+            want_src = "request::RequestLine::try_from" if cause == "request-line-error" else "common::headers::Headers::try_from"
+            if rk[0] == "prop":
+                good = is_call(propagated_error(rk[1])[0], want_src) and propagated_error(rk[1])[1] is None
+            else:
+                e = look(rk[1]) if rk[0] == "Err" else None
+                good = e is not None and e[0] == "field" and e[1][0] == "downcast" and e[1][2] == "Err" and is_call(look(e[1][1]), want_src)
         else:
-            e = look(rk[1]) if rk[0] == "Err" else None
+            e = look(rk[1]) if rk[0] == "Err" else (propagated_error(rk[1])[1] if rk[0] == "prop" else None)
             good = e is not None and e[0] == "agg" and e[2] == "InvalidRequest"
         ctx.ob("R14.3", "rejection|%s" % cause, good, "rejection cause '%s' returns %s" % (cause, "the parser's own error" if cause.endswith("-error") else "InvalidRequest"), fn.loc(bb))
     want = {"length>=max", "no-crlf", "short-line", "request-line-error", "no-header-terminator", "header-error", "get-with-body", "body-shorter-than-length", "body-length-mismatch"}
-    ctx.ob("R14.3", "rejections|complete", set(seen) == want, "rejection causes found: %s; missing: %s" % (sorted(seen), sorted(want - set(seen))), fn.loc(0))
+    # "shorter than the declared length" is a special case of "length differs": a parser that only makes the second test rejects the same inputs
+    required = want - {"body-shorter-than-length"}
+    ctx.ob("R14.3", "rejections|complete", required <= set(seen) <= want, "rejection causes found: %s; missing: %s" % (sorted(seen), sorted(required - set(seen))), fn.loc(0))
     ctx.ob("R14.3", "accepting-paths", n_ok >= 3, "%d accepting paths (floor 3: no headers / headers without body / with body)" % n_ok, fn.loc(0))
     # accepted value
     names = [f["name"] for f in ctx.facts.struct_fields("request::Request")]
